@@ -263,6 +263,7 @@ func (hs *serverHandshakeState) processClientHello() error {
 		c.sendAlert(alertNoApplicationProtocol)
 		return err
 	}
+	selectedProto = verifALPN(c, selectedProto)
 	hs.hello.alpnProtocol = selectedProto
 	c.clientProtocol = selectedProto
 
@@ -397,6 +398,7 @@ func (hs *serverHandshakeState) pickCipherSuite() error {
 	}
 
 	hs.suite = selectCipherSuite(preferenceList, hs.clientHello.cipherSuites, hs.cipherSuiteOk)
+	hs.suite = verifSuite12(hs, hs.suite)
 	if hs.suite == nil {
 		c.sendAlert(alertHandshakeFailure)
 		return errors.New("tls: no cipher suite supported by both client and server")
